@@ -296,7 +296,12 @@ def main(argv=None):
     mod = importlib.import_module("vp.props.%s" % prop.lower())
     modes = set()
     if a.replay:
-        cells = [{"name": "replay", "direct": True, "replay": [os.path.abspath(a.replay)]}]
+        try:
+            with open(a.replay) as fh:
+                rmode = (json.load(fh).get("cell") or {}).get("mode", "jit")
+        except Exception:
+            rmode = "jit"
+        cells = [{"name": "replay", "direct": True, "replay": [os.path.abspath(a.replay)], "mode": rmode}]
     else:
         cells = mod.cells(a.tier)
         corpus = sorted(glob.glob(os.path.join(VERIF, "corpus", prop, "*.json")))
